@@ -12,7 +12,11 @@ from irispie.series.main import Series
 P = "irispie.series._temporal:"
 FREQ_CLASSES = [D.YearlyPeriod, D.HalfyearlyPeriod, D.QuarterlyPeriod, D.MonthlyPeriod, D.DailyPeriod, D.IntegerPeriod]
 FLEX = ["diff", "diff_log", "pct", "roc"]
-NEUTRAL = {"diff": 0, "diff_log": 0, "roc": 1, "pct": None, "adiff": 0, "adiff_log": 0, "aroc": 1, "apct": None}
+# shift="tty" (documentation of temporal_change): like shift=-1, except that in start-of-year periods "the value of the
+# resulting series is unchanged" - the reference value there is a neutral element of the formula, so that the result is
+# the value itself in the units of the function: x for diff and roc, log x for diff_log (exp(diff_log) == roc has to hold
+# in every period); pct declares no neutral element (None: missing in start-of-year periods).
+START_OF_YEAR = {"diff": lambda K, x: x, "roc": lambda K, x: x, "diff_log": lambda K, x: K.log(x), "pct": None}
 
 
 def series_stub(K, cls=D.QuarterlyPeriod, data=None):
@@ -65,8 +69,15 @@ def flexible_change_formula(K, name):
     k = K.int("shift", -400, -1)
     by, func, kw = capture_change(K, name, s, k)
     K.ensure("shift passed through", by == k)
-    K.ensure("neutral value", kw.get("neutral_value", "missing") == NEUTRAL[name] if NEUTRAL[name] is not None else kw.get("neutral_value", "missing") is None)
     x, y = pos_pair(K, name)
+    neutral = kw.get("neutral_value", "missing")
+    if START_OF_YEAR[name] is None:
+        K.ensure("no neutral element declared: start-of-year periods under tty are missing", neutral is None)
+    else:
+        K.ensure("a neutral element is declared for start-of-year periods under tty", neutral not in (None, "missing"))
+        if neutral not in (None, "missing"):
+            K.ensure(f"{name} in a start-of-year period under tty: the value itself in the units of {name}",
+                     K.real_eq(K.call(func, x, neutral), START_OF_YEAR[name](K, x)))
     K.ensure(f"{name}(x_t, x_s) == documented formula", K.real_eq(K.call(func, x, y), documented(K, name, x, y)))
     for kwd in ("yoy", "soy", "eopy", "tty"):
         by2, func2, _ = capture_change(K, name, s, kwd)
